@@ -4,7 +4,7 @@ connections and evaluates the spec `Gotlcp.Spec.Resumption.check` on what the re
 
 case     : `stack=tlcp|dtlcp ccap=<int> scap=<int> hist=<conn>,<conn>,...`
              conn = `<pre>/d<dst>/s<server>/<client suites>/<server suites>/<fault>`
-             pre  = `-` | act{`+`act},  act = `j<k>` | `fg` | `st<d>` | `sl`
+             pre  = `-` | act{`+`act},  act = `j<k>` | `fg` | `fn` | `st<d>` | `sl`
              suites = hex ids joined by `.`;  fault = `ok` | `sf` | `cf`
 observed : `c<i>=<c ok|fail>/<s ok|fail>/<cResumed 0|1|->/<sResumed>/<offered id>/<returned id>/<id len>/<suite>/<peer>/<master>/<fresh>/<control>` …
            `why=<reasons>` (informational, echoed).
@@ -31,12 +31,12 @@ def storeAfter (order : List String) : Bool :=
 
 def tlcpParams : Params :=
   { strictDelete := Facts.tlcp.lruPutNilAbsentReturns, perKeyObject := Facts.tlcp.resClientPutDistinct,
-    storeAfterFinished := storeAfter Facts.tlcp.resClientFullOrder, prefOrder := Facts.tlcp.preferenceOrder,
+    storeAfterFinished := storeAfter Facts.tlcp.resClientFullOrder, verifyOnLoad := Facts.tlcp.resLoadVerifiesCerts, prefOrder := Facts.tlcp.preferenceOrder,
     ecdhe := [Facts.tlcp.ECDHE_SM4_GCM_SM3, Facts.tlcp.ECDHE_SM4_CBC_SM3], version := Facts.tlcp.VersionTLCP }
 
 def dtlcpParams : Params :=
   { strictDelete := Facts.dtlcp.lruPutNilAbsentReturns, perKeyObject := Facts.dtlcp.resClientPutDistinct,
-    storeAfterFinished := storeAfter Facts.dtlcp.resClientFullOrder, prefOrder := Facts.dtlcp.preferenceOrder,
+    storeAfterFinished := storeAfter Facts.dtlcp.resClientFullOrder, verifyOnLoad := Facts.dtlcp.resLoadVerifiesCerts, prefOrder := Facts.dtlcp.preferenceOrder,
     ecdhe := [Facts.dtlcp.ECDHE_SM4_GCM_SM3, Facts.dtlcp.ECDHE_SM4_CBC_SM3], version := Facts.dtlcp.VersionTLCP }
 
 def paramsOf (stack : String) : Option (Params × Nat × Nat) :=
@@ -53,7 +53,8 @@ def parseSuites (s : String) : Option (List Nat) :=
   if s == "-" then some [] else (s.splitOn ".").mapM hexNat
 
 def parsePre (s : String) : Option Pre :=
-  if s == "fg" then some .forge
+  if s == "fg" then some (.forge true)
+  else if s == "fn" then some (.forge false)
   else if s == "sl" then some .dropServer
   else if s.startsWith "st" then (String.ofList (s.toList.drop 2)).toNat?.map Pre.stale
   else if s.startsWith "j" then (String.ofList (s.toList.drop 1)).toNat?.map Pre.junk
